@@ -31,9 +31,9 @@ type cpool struct {
 	alloc   func(h string) string // "" = refused
 	release func(h string)
 	lookup  func(h string) (string, bool)
-	remote  func(h, unit string)                         // apply a replicated record (DistributedAllocator only)
+	remote  func(h, unit string)                                              // apply a replicated record (DistributedAllocator only)
 	extra   func(live map[string]string, add func(kind, site, detail string)) // further query APIs
-	unknown int // subscribers whose final state the harness cannot read back (no lookup API + concurrent release)
+	unknown int                                                               // subscribers whose final state the harness cannot read back (no lookup API + concurrent release)
 }
 
 var bg = context.Background()
